@@ -154,6 +154,20 @@ def _spelled(v, how):
     return v
 
 
+def _default_ref(c, got):
+    """a StrategyDict called directly must be the documented default strategy called with the same arguments: the
+    coefficient lists of both calls (same code, so identical) - None when the case names its strategy"""
+    if "strategy" in c:
+        return None
+    import audiolazy as al
+    fn, a, kw = _real_call(dict(c, strategy=DEFAULT_STRATEGY[c["entry"]]))
+    ref = fn(*a, **kw)
+    secs = list(ref) if isinstance(ref, al.CascadeFilter) else [ref]
+    mine = list(got) if isinstance(got, al.CascadeFilter) else [got]
+    pair = lambda fs: [[[enc(float(x)) for x in f.numerator], [enc(float(x)) for x in f.denominator]] for f in fs]
+    return {"default": DEFAULT_STRATEGY[c["entry"]], "same": pair(secs) == pair(mine)}
+
+
 def _real_call(c):
     """the real call of a plain design case: which object is called (`via`: the strategy looked up with [] / as an
     attribute / under an alias name / not at all = the StrategyDict itself, i.e. its default), how the arguments travel
@@ -379,6 +393,22 @@ def gen_calls(rng, tier, scale=1):
             d = rng.randint(1, 6)
             cases.append({"entry": "comb", "delay": d, "param": _f(rng.randint(-15, 15) / 16.0), "xs": _xs(rng, 2 * d + 3), "args": args})
             cases.append({"entry": "gammatone", "freq": _f(rng.uniform(0.3, 2.8)), "bandwidth": _f(_rand_bw(rng)), "args": args})
+        # --- every strategy of every StrategyDict with all arguments by keyword
+        for band in ("lowpass", "highpass"):
+            for st in LP_STRATS:
+                cases.append({"entry": band, "strategy": st, "cutoff": _f(_rand_freq(rng)), "args": "kw", "via": "attr"})
+        for st in RES_STRATS:
+            cases.append({"entry": "resonator", "strategy": st, "freq": _f(rng.uniform(0.6, 2.5)), "bandwidth": _f(_rand_bw(rng)),
+                          "args": "kw", "via": "attr"})
+        for st in COMB_STRATS:
+            d = rng.randint(1, 5)
+            cases.append({"entry": "comb", "strategy": st, "delay": d, "param": _f(rng.choice([0.5, 2.0, -0.75])),
+                          "xs": _xs(rng, 2 * d + 2), "args": "kw"})
+        for st in GT_STRATS:
+            c = {"entry": "gammatone", "strategy": st, "freq": _f(rng.uniform(0.5, 2.6)), "bandwidth": _f(_rand_bw(rng)), "args": "kw"}
+            if st == "sampled":
+                c.update(phase=_f(rng.uniform(-1, 1)), eta=rng.randint(1, 4))
+            cases.append(c)
         # --- omitted parameters
         for st in (None, "fb", "tau", "ff"):
             d = rng.randint(1, 7)
@@ -450,10 +480,10 @@ def gen_calls(rng, tier, scale=1):
                 cases.append(_spell_some(rng, _shape(rng, {"entry": "erb", "strategy": st, "freq": _f(f), "Hz": _f(hz)})))
         # --- erb is elementwise in freq
         for cont in ("list", "tuple", "Stream", "gen"):
-            for hz in (None, 2 * PI / 44100):
+            for hz, refuse in ((None, False), (None, True), (2 * PI / 44100, False)):
                 n = rng.randint(1, 4)
                 fs = [rng.uniform(7, 20000) if hz is None else rng.uniform(0.001, 3.1) for _ in range(n)]
-                if hz is None and rng.random() < 0.5:
+                if refuse:
                     fs.insert(rng.randint(0, n), rng.uniform(0, 6.9))      # an item the call refuses
                 c = {"entry": "erbmap", "cont": cont, "freqs": [_f(f) for f in fs]}
                 if hz is not None:
@@ -583,21 +613,23 @@ def impl_here(c):
     try:
         if e in ("lowpass", "highpass"):
             fn, a, kw = _real_call(c)
-            return _observe(fn(*a, **kw), _fl(c["cutoff"]))
+            filt = fn(*a, **kw)
+            return dict(_observe(filt, _fl(c["cutoff"])), ref=_default_ref(c, filt))
         if e == "resonator":
             fn, a, kw = _real_call(c)
-            return _observe(fn(*a, **kw), _fl(c["freq"]))
+            filt = fn(*a, **kw)
+            return dict(_observe(filt, _fl(c["freq"])), ref=_default_ref(c, filt))
         if e == "comb":
             fn, a, kw = _real_call(c)
             filt = fn(*a, **kw)
             xs = hist.xs_of(c)
             return {"num": [enc(float(x)) for x in filt.numerator], "den": [enc(float(x)) for x in filt.denominator],
-                    "out": [enc(float(y)) for y in filt(xs)]}
+                    "out": [enc(float(y)) for y in filt(xs)], "ref": _default_ref(c, filt)}
         if e == "gammatone":
             fn, a, kw = _real_call(c)
             g = fn(*a, **kw)
             f = _fl(c["freq"])
-            return {"type": type(g).__name__, "sections": [_observe(s, f) for s in g]}
+            return {"type": type(g).__name__, "sections": [_observe(s, f) for s in g], "ref": _default_ref(c, g)}
         if e == "erb":
             fn, a, kw = _real_call(c)
             v = fn(*a, **kw)
@@ -654,8 +686,7 @@ def request(c):
         r["xs"] = [_f(x) for x in hist.xs_of(c)]
         return r
     if c["entry"] == "erbmap":
-        base = {k: c[k] for k in ("strategy", "Hz") if k in c}
-        return {"entry": "multi", "cases": [dict(base, entry="erb", freq=f) for f in c["freqs"]]}
+        return {k: v for k, v in c.items() if k != "cont"}
     if c["entry"] != "stream":
         return {k: v for k, v in c.items() if k not in HARNESS_KEYS}
     d, n = c["design"], c["take"]
@@ -837,6 +868,9 @@ def _problems(c, io, drv):
         return out
     if "err" in io:
         return [("model", name + ":raised", "impl raised " + io["err"]), ("spec", name + ":raised:" + io["err"], "impl raised " + io["err"])]
+    if io.get("ref") and not io["ref"]["same"]:
+        out.append(("spec", e + ":default-strategy", "%s(...) called directly is not %s.%s(...) with the same arguments" % (
+            e, e, io["ref"]["default"])))
     if e in ("lowpass", "highpass", "resonator"):
         _check_coefs(name, io, drv["model"], out)
         if not c.get("nocontract"):
@@ -907,36 +941,40 @@ def _problems(c, io, drv):
 
 
 def _problems_erbmap(c, io, drv):
-    """elementwise erb: the container kind is kept, item k is the call on frequency k (model: erbCall per item); an
-    eager container (list / tuple) raises as a whole when an item does, a lazy one (Stream / generator) at that item"""
+    """elementwise erb: the container kind is kept; an eager container (list / tuple) is the Lean `erbCallList` (all
+    items, or the ValueError of the first refused one), a lazy one (Stream / generator) the Lean `erbCallLazy` (item by
+    item up to the first refusal)   [theorem erb_elementwise]"""
     name = "erbmap." + _strategy(c) + "." + c["cont"]
     out = []
-    want = drv["results"]
-    first_err = next((k for k, w in enumerate(want) if "err" in w), None)
-    eager = c["cont"] in ("list", "tuple")
-    if eager and first_err is not None:
-        if io.get("raised") != want[first_err]["err"]:
-            out.append(("model", name + ":error", "impl %r, model: item %d raises %s" % (io, first_err, want[first_err]["err"])))
-            out.append(("spec", name + ":error", "impl %r, required %s" % (io, want[first_err]["err"])))
-        return out
+
+    def bad(cl, detail):
+        out.append(("model", name + ":" + cl, detail))
+        out.append(("spec", name + ":" + cl, detail))
+    if c["cont"] in ("list", "tuple"):
+        want = drv["eager"]
+        if "err" in want:
+            if io.get("raised") != want["err"]:
+                bad("error", "impl %r, required: the call raises %s" % (io, want["err"]))
+            return out
+        want = [{"model": v} for v in want["values"]]
+    else:
+        want = drv["lazy"]
     if "raised" in io:
-        return [("model", name + ":raised", "impl raised " + io["raised"]), ("spec", name + ":raised:" + io["raised"], "impl raised " + io["raised"])]
+        bad("raised:" + io["raised"], "the call raised " + io["raised"])
+        return out
     kind = {"list": "list", "tuple": "tuple", "Stream": "Stream", "gen": "generator"}[c["cont"]]
     if io["type"] != kind:
         out.append(("spec", name + ":type", "erb of a %s returned a %s" % (kind, io["type"])))
-    nread = len(want) if first_err is None else first_err + 1
-    if len(io["items"]) != nread:
-        out.append(("spec", name + ":length", "%d items read, required %d" % (len(io["items"]), nread)))
+    if len(io["items"]) != len(want):
+        bad("length", "%d items read, required %d" % (len(io["items"]), len(want)))
         return out
     for k, (got, w) in enumerate(zip(io["items"], want)):
         if "err" in w or "err" in got:
             if got.get("err") != w.get("err"):
-                out.append(("model", name + ":item", "item %d: impl %r model %r" % (k, got, w)))
-                out.append(("spec", name + ":item-error", "item %d: impl %r required %r" % (k, got, w)))
+                bad("item-error", "item %d: impl %r required %r" % (k, got, w))
         elif not _ulp_close([got["v"]], [w["model"]]):
-            out.append(("model", name + ":item", "item %d: impl %r model %r" % (k, _fl(got["v"]), _fl(w["model"]))))
-            out.append(("spec", name + ":elementwise", "item %d (frequency %r): %r, the call on that frequency alone gives %r" % (
-                k, _fl(c["freqs"][k]), _fl(got["v"]), _fl(w["model"]))))
+            bad("elementwise", "item %d (frequency %r): %r, the call on that frequency alone gives %r" % (
+                k, _fl(c["freqs"][k]), _fl(got["v"]), _fl(w["model"])))
     return out
 
 
